@@ -228,6 +228,7 @@ struct VerifCVMem {
     long mxsteps;
     SUNContext ctx;
     int inited;
+    int fresh;   // no step taken since CVodeInit/CVodeReInit
 };
 
 void *CVodeCreate(int lmm, SUNContext ctx) {
@@ -246,7 +247,7 @@ int CVodeSetMaxNumSteps(void *mem, long int mx) {
 int CVodeInit(void *mem, CVRhsFn f, realtype t0, N_Vector y0) {
     if (!mem) return CV_MEM_NULL;
     VerifCVMem *m = (VerifCVMem *)mem;
-    m->f = f; m->tn = t0; m->y = y0; m->inited = 1;
+    m->f = f; m->tn = t0; m->y = y0; m->inited = 1; m->fresh = 1;
     verif_shim.calls.push_back({2, t0, t0, t0, 0});
     return CV_SUCCESS;
 }
@@ -257,7 +258,7 @@ int CVodeReInit(void *mem, realtype t0, N_Vector y0) {
     if (verif_shim.reinit_pos < verif_shim.reinit_script.size()) flag = verif_shim.reinit_script[verif_shim.reinit_pos++];
     verif_shim.calls.push_back({1, t0, m->tn, t0, flag});
     if (flag < 0) return flag;
-    m->tn = t0; m->y = y0;
+    m->tn = t0; m->y = y0; m->fresh = 1;
     return flag;
 }
 int CVodeSStolerances(void *mem, realtype r, realtype a) { (void)r; (void)a; return mem ? CV_SUCCESS : CV_MEM_NULL; }
@@ -284,6 +285,27 @@ int CVode(void *mem, realtype tout, N_Vector yout, realtype *tret, int itask) {
     VerifCVOutcome oc = {CV_SUCCESS, 1.0};
     if (verif_shim.cvode_pos < verif_shim.cvode_script.size()) oc = verif_shim.cvode_script[verif_shim.cvode_pos++];
     realtype tn0 = m->tn;
+    // documented CVODE input checks (cvode.c: CVode): tout must be a number, must not lie behind the
+    // current time, and on the first step after (re)initialisation must not be "too close" to t0
+    if (tout != tout) {
+        *tret = tn0;
+        verif_shim.calls.push_back({0, tout, tn0, tn0, CV_ILL_INPUT});
+        return CV_ILL_INPUT;
+    }
+    if (tout < tn0) {
+        *tret = tn0;
+        verif_shim.calls.push_back({0, tout, tn0, tn0, CV_ILL_INPUT});
+        return CV_ILL_INPUT;
+    }
+    if (m->fresh) {
+        realtype tround = 2.220446049250313e-16 * fmax(fabs(tn0), fabs(tout));
+        if (fabs(tout - tn0) < 2.0 * tround || tout == tn0) {
+            *tret = tn0;
+            verif_shim.calls.push_back({0, tout, tn0, tn0, -27});
+            return -27;  // CV_TOO_CLOSE
+        }
+    }
+    m->fresh = 0;
     // exercise the real generated callbacks on the vector CVODE was given
     if (verif_shim.call_rhs && m->f) {
         N_Vector yd = N_VNew_Serial(yout->length, m->ctx);
